@@ -22,6 +22,7 @@ META = dict(
          "cards, breaking the per-contest order from the third round on) were repaired with fix: commits.",
     technique="append-uniqueness obligation (dominating membership test), who-may-write on the list, reuse of C07/C09/C11/C06 rules",
 )
+META["text"] += ' Sample numbers are re-derived from the seed and the position alone, never from what earlier rounds did to the records (= C07.R5).'
 
 
 def run(chk):
